@@ -1,4 +1,4 @@
-From Verif Require Import Base.Sx Model.PipeEntry.
+From Verif Require Import Base.Sx Model.C04Full.
 From Coq Require Import Extraction ExtrOcamlBasic.
-Definition run := c04_pipe_entry.
+Definition run := c04_full_entry.
 Extraction "model.ml" run.
